@@ -10,7 +10,7 @@ LEVEL_TEXT = {
  'C04': 'Python matrix kernel as scheme instance; C compact writer per region (map inversion, lock-step, fills, band per region); pyx direct-matrix decision; return arity. Cell values are not compared.',
  'C05': 'Step tables of the back-trackers, penalty plumbing, index-array sizing and one-write-per-decreasing-step. That the path cost equals the distance numerically is not claimed.',
  'C06': 'The pair set/order of every enumerator and both length functions as symbolic iteration spaces (finite set of orderings of rb,re,cb,ce,r), block decoding, square conversion.',
- 'C07': 'Static sufficient condition for schedule independence (privatisation, single output, disjoint slots, re-entrancy); pool primitive and pair order for multiprocessing.',
+ 'C07': 'Static sufficient condition for schedule independence (privatisation per directive incl. nested regions, single output, disjoint slots, re-entrancy); pool primitive and pair order for multiprocessing.',
  'C08': 'Necessary buffer-safety conditions decided structurally (allocation/use agreement, shadowing, stride form) and bounds obligations with concrete witnesses for psi-derived ranges and compact positions. Full memory safety is NOT claimed.',
  'C09': 'Envelope range = DTW band in all copies, scan initialisers, padding element/stride of the Euclidean distance, domain of only_ub, variant agreement. The inequalities themselves are not claimed.',
  'C10': 'Laws of the admissible-path set description (symmetry, monotonicity, window-1 corollary) proved on the band terms every copy was proved equal to; symmetric recurrence and psi roles; mirroring.',
@@ -18,10 +18,10 @@ LEVEL_TEXT = {
  'C12': 'Accumulation/mean pairing on all paths (C and Python), mask guard and bit order, copy-before-update, iteration bound, buffer sizing. Objective monotonicity is not claimed.',
  'C13': 'Reduction to global DTW via psi encoding, identical options in the four engines, single domain conversion, internal-domain back-tracking penalty, writes-only-upper-bounds iterator.',
  'C14': 'Path/typestate rules of the candidate loop (LB validity guard, strict comparators, threshold discipline, defined distances, cache typestate).',
- 'C15': 'Writes-only-inf, guard dominance and recomputation on every back edge, blanking coverage, bookkeeping, linkage hook, SciPy condensed order.',
- 'C16': 'Final assignment post-dominates last write of the means, partition construction, iteration counter, helper siblings, seeding blocks.',
+ 'C15': 'Writes-only-inf, guard dominance and recomputation on every back edge, blanking coverage, bookkeeping, linkage hook, SciPy condensed order; per-call state of the fit methods (definite assignment, no conditional cache of a mutable attribute).',
+ 'C16': 'Final assignment post-dominates last write of the means, partition construction, iteration counter, helper siblings, seeding blocks; per-call state of KMeans.fit is assigned before it is read on every path (a second fit does not see the first).',
  'C17': 'dp.dp as scheme instance, arrow table writer/reader agreement, gap emission, joint negation, return arity.',
- 'C18': 'Affinity recurrence normal form in Python and C regions, forwarding, entry points, identity tests, scan initialisers, duality.',
+ 'C18': 'Affinity recurrence normal form in Python and C regions, forwarding, entry points, identity tests, scan initialisers, duality; window mask of the non-compact matrix covers the band (box of shapes/windows); restore pass of the reset unconditional.',
  'C19': 'Dispatch chains, sound monotonicity/interval calculus per arm, reported-parameter completeness, documented-formula agreement.',
  'C20': 'Effect rules (no store through series parameters in Python/C), contiguity provenance before raw pointers, private container storage, optional-NumPy symmetry, module state, caller-owned option dictionaries.',
 }
